@@ -176,6 +176,7 @@ type ExecOpts struct {
 	IntMode     bool
 	Trace       bool
 	FullBytes   bool // vnd.Root/Sig/... fully symbolic instead of 5 symbolic bytes
+	NoBatch     bool // discharge every assertion with its own query
 }
 
 type Violation struct {
